@@ -73,6 +73,15 @@ class Stats:
             self.samples.append(obj)
 
 
+def vacuity(out, msg):
+    """A vacuity gate missed: machinery failure (exit 2) - unless violations were found, which are
+    reported first (a change that breaks the code under test often also empties a gate)."""
+    if out:
+        print("NOTE: " + msg + " (not enforced: violations found)")
+        return
+    raise MachineryError(msg)
+
+
 class MachineryError(Exception):
     """The machinery itself failed (TLC crashed, vacuity gate missed): exit 2."""
 
